@@ -7,6 +7,7 @@ import (
 	"fmt"
 	"io"
 	"os"
+	"path/filepath"
 	"regexp"
 	"runtime/debug"
 	"sort"
@@ -111,7 +112,10 @@ func c05AppRec(rec func(c fiber.Ctx)) fasthttp.RequestHandler {
 	app.Get("/opt/:o?", func(c fiber.Ctx) error { rec(c); return c.SendString("o=[" + c.Params("o") + "]") })
 	app.Get("/sf-a", func(c fiber.Ctx) error { rec(c); return c.SendFile(c05File, fiber.SendFile{MaxAge: 3600}) })
 	app.Get("/sf-b", func(c fiber.Ctx) error { rec(c); return c.SendFile(c05File) })
-	app.Get("/*", func(c fiber.Ctx) error { rec(c); return c.SendString("rest=[" + c.Params("*") + "] a=[" + c.Params("a") + "]") })
+	app.Get("/*", func(c fiber.Ctx) error {
+		rec(c)
+		return c.SendString("rest=[" + c.Params("*") + "] a=[" + c.Params("a") + "]")
+	})
 	return app.Handler()
 }
 
@@ -136,9 +140,17 @@ func serveWire(rc *fasthttp.RequestCtx, h fasthttp.RequestHandler, raw string) {
 	}()
 }
 
-// c05File: the file the SendFile routes serve (one path for every app of the process)
+// c05File: the file the SendFile routes serve (one path for every app of the process); it lives next to the driver's output
+// file, in the check's scratch directory, which the runner removes
 var c05File = func() string {
-	f, err := os.CreateTemp("", "c05-*.txt")
+	if os.Getenv("VERIF_CASES") == "" {
+		return ""
+	}
+	dir := ""
+	if o := os.Getenv("VERIF_OUT"); o != "" {
+		dir = filepath.Dir(o)
+	}
+	f, err := os.CreateTemp(dir, "c05-*.txt")
 	if err != nil {
 		panic(err)
 	}
